@@ -17,4 +17,7 @@ func TestVerif_C08(t *testing.T) {
 	for i := 0; i < n; i++ {
 		out.emit(vpGenCase(rng, i, "c08"))
 	}
+	// results of ReadBytes / Peek that came through the socket fallback (non-shm slices) of REAL session pairs
+	// must not change either while later events arrive on the connection (see c06_session_test.go)
+	vsRun(out, newVrand(uint64(venvInt("VERIF_SEED", 1))+0x0C58), venvInt("VERIF_N2", n/10), n, "c08s")
 }
